@@ -33,7 +33,14 @@ MANIFEST = {
             "The image_dtypes facet stores the image as float16, bfloat16, uint8, int16, int32 or int64 (one case in three with "
             "a 48-160 sample axis), asserts the result dtype documented by grid_sample and requires half-precision / integer "
             "results to lie in the interval obtained by rounding (float64 reference of the stored voxel values +- float32 bound) "
-            "to the result dtype, i.e. nothing but the final cast may lose precision. Exploration: no absence proof; the derived "
+            "to the result dtype, i.e. nothing but the final cast may lose precision. The object_history facet resamples images "
+            "that are not fresh: one live Image / ImageBatch (built directly, by from_images, or taken from a batch) goes through "
+            "2-6 steps - earlier checked sample(grid | coords) calls on reused / rebuilt / warmed / derived target Grid objects of "
+            "one size, read-only uses, in-place header replacement grid_(), grid(g), in-place data edits, in-place setters on the "
+            "live Grid, dtype conversion, clone/copy/deepcopy, item / sub-batch / batch() / from_images / append / cat, return to "
+            "the parent object - and every sample must agree with ITK / numpy for the data the object holds and the header(s) the "
+            "documented effect of the steps puts it on at the time of the call (the reported headers are compared with that model "
+            "first). Exploration: no absence proof; the derived "
             "bound (64 eps32 x condition x intensity range) is 2-4 orders of magnitude below the effect of a half-sample shift, a "
             "transposed/inverted matrix, a wrong convention or a stale matrix of the grid a grid was derived from.",
     "note": "Trusted: SimpleITK's resampler, the float64 grid model and numpy interpolator of vlib/ref.py (self-tested against "
@@ -42,7 +49,8 @@ MANIFEST = {
             "conversion (monotone; also what the final cast of the result uses). Nearest-neighbour ties, the ITK inside-test and "
             "derived sizes decided by float32 rounding are generated around or accepted either way, not tolerated.",
     "technique": "property-based testing (Hypothesis) with a differential oracle (SimpleITK resampler) and a float64 numpy "
-                 "reference model, incl. use-derive-use operation sequences against a float64 model of grid derivation; "
+                 "reference model, incl. use-derive-use operation sequences against a float64 model of grid derivation and "
+                 "operation histories on one live Image / ImageBatch object against a float64 model of its headers; "
                  "metamorphic identity / coordinate-tensor relations",
 }
 ASSUMPTIONS = [
@@ -66,6 +74,14 @@ ASSUMPTIONS = [
     "the sampling coordinates: float32 for Grid arguments and modules); integer images get padding constants representable "
     "in their dtype (the cast of a fractional constant is not documented); coordinates are float32 or float64 (half-precision "
     "coordinate tensors passed by the caller are the caller's choice and not generated); bool images are not generated",
+    "object histories: an Image / ImageBatch is resampled as it is at the time of the call - data = what its tensor() holds then "
+    "(in-place edits through the object itself, tensor() views and normalize_ are visible by construction of torch views, their "
+    "arithmetic is not asserted), header = the Grid object last attached by the constructor / grid_() / grid(g) with the in-place "
+    "Grid setters applied; to/float/double/type, detach, copy, [...], item, iteration, sub-batch, batch(), from_images, append and "
+    "cat keep the header of every image, clone / deepcopy give equal independent headers; out-of-place steps leave the object "
+    "they were applied to unchanged (a conversion that returns the object itself is the same object); Image.batch() shares the "
+    "Grid object reference (docstring). torch functions that permute the batch dimension (flip(0), roll, index_select) are not "
+    "generated: which grid each image of such a result carries is not documented",
 ]
 
 K = 64.0
@@ -1384,6 +1400,503 @@ def run_dtypes(case):
                                                             f"result={exp_name}"]}
 
 
+# ---------------------------------------------------------------------------------------
+# facet 8: Image / ImageBatch objects with a history
+#
+# The statement quantifies over images, not over freshly constructed objects: whatever sequence of public calls produced
+# the Image / ImageBatch and whatever was done with it before, sample() must resample the image *as it is at the time of
+# the call* - the voxel values its tensor holds now on the header(s) its grid()/grids() report now.  A case is a root
+# object (Image, ImageBatch with a shared Grid / per-image Grids, ImageBatch.from_images, an item of a batch) plus a short
+# list of steps executed on ONE live object: checked sample(grid | coords) calls, read-only uses, in-place header
+# replacement grid_(), the out-of-place with-er grid(g), in-place data edits, in-place setters on the live Grid object,
+# dtype conversion, clone/copy/deepcopy, taking an item / a sub-batch, batch() / from_images / append / cat, and going
+# back to the object a step was applied to (parents must be unaffected by out-of-place steps).  The harness keeps a
+# float64 descriptor per Grid *object* (updated by the in-place setters) and per live object the list of descriptors its
+# images must be on (the documented effect of every step); before every sample the header each image reports is compared
+# with that descriptor, the data are read from the object's tensor at the time of the call, and the result is compared
+# with ITK / the numpy interpolator on the descriptor headers.  Target Grid objects are built once (warmed, optionally
+# derived by deepali's own methods - then their reported attributes are the reference header) and reused between steps.
+
+HIST_USES = ("batch", "accessors", "sitk", "resize", "center_crop", "normalize", "repr", "getitem", "arith", "sample_self")
+HIST_DATA = ("copy_", "tensor_copy_", "mul_", "tensor_add_", "setitem", "normalize_")
+HIST_INPLACE = ("grid_", "data", "grid_attr")
+N_SRC_POOL, N_TGT_POOL = 4, 3
+HIST_PLANS = [  # categories of steps; most plans contain the pattern use -> in-place change -> sample
+    ["warm", "inplace", "sample"], ["warm", "inplace", "sample"], ["any", "warm", "inplace", "sample"], ["warm", "inplace", "any", "sample"],
+    ["warm", "any", "inplace", "sample"], ["any", "warm", "inplace", "any", "sample"], ["warm", "inplace", "warm", "inplace", "sample"],
+    ["derive", "warm", "inplace", "sample"], ["warm", "derive", "inplace", "back", "sample"], ["warm", "derive", "warm", "inplace", "sample"],
+    ["warm", "inplace", "derive", "sample"], ["derive", "derive", "warm", "inplace", "sample"], ["warm", "derive", "back", "inplace", "sample"],
+    ["derive", "sample"], ["derive", "derive", "sample"], ["derive", "back", "sample"], ["warm", "derive", "back", "sample"],
+    ["derive", "inplace", "back", "sample"], ["derive", "warm", "back", "inplace", "sample"],
+    ["any", "sample"], ["any", "any", "sample"], ["any", "any", "any", "any", "sample"], ["any", "any", "any", "any", "any", "sample"],
+]
+
+
+@st.composite
+def history_cases(draw):
+    D = draw(gen.dims())
+    srcs, tgts = draw(grid_sets(D, N_SRC_POOL, "per_image", "per_image", cover=(0.3, 1.4)))
+    tgts = tgts[:N_TGT_POOL]
+    root = draw(st.sampled_from(["Image", "Image", "ImageBatch_grid", "ImageBatch_list", "ImageBatch_list", "from_images", "batch_item"]))
+    N = 1 if root == "Image" else draw(st.sampled_from([1, 2, 3]))
+    stack = [("Image" if root in ("Image", "batch_item") else "batch", 1 if root in ("Image", "batch_item") else N)]
+    pool = lambda: draw(st.integers(0, N_SRC_POOL - 1))  # noqa: E731
+    steps = []
+    plan = draw(st.sampled_from(HIST_PLANS))
+    for cat in plan:
+        kind, n = stack[-1]
+        warm = ["sample"] * 3 + ["coords", "use", "use"]
+        inplace = ["grid_"] * 3 + ["data", "data", "grid_attr"]
+        derive = ["grid", "to", "copy"] + (["item", "item"] + (["sub", "sub"] if n >= 2 else []) + (["grow"] if n <= 2 else []) if kind == "batch"
+                                           else ["batch", "batch"])
+        back = ["back"] if len(stack) > 1 else []
+        names = {"warm": warm, "inplace": inplace, "derive": derive, "sample": ["sample"], "back": back or warm,
+                 "any": warm + inplace + derive + back}[cat]
+        name = draw(st.sampled_from(names))
+        step = {"op": name}
+        if name in ("sample", "coords"):
+            one = kind == "Image" or name == "coords" or draw(st.booleans())
+            step["t"] = [draw(st.integers(0, N_TGT_POOL - 1)) for _ in range(1 if one else n)]
+            step["alt"] = draw(st.sampled_from([False, False, False, True]))
+            if name == "sample":
+                step["fresh"] = draw(st.sampled_from([False, False, True]))
+                step["form"] = draw(st.sampled_from(["grid", "list"]))
+                earlier = [s for s in steps if s["op"] == "sample" and len(s["t"]) in (1, len(step["t"]))]
+                if earlier and draw(st.sampled_from([True, True, False])):  # the same target object(s) and settings as in an earlier call
+                    step.update(t=list(earlier[-1]["t"]), alt=earlier[-1]["alt"], fresh=False, form=earlier[-1]["form"])
+            else:
+                step["cdtype"] = draw(st.sampled_from(["float32", "float32", "float64"]))
+        elif name == "use":
+            step["how"] = draw(st.sampled_from(HIST_USES))
+        elif name in ("grid_", "grid"):
+            step["g"] = [pool() for _ in range(1 if kind == "Image" or draw(st.booleans()) else n)]
+            step["form"] = draw(st.sampled_from(["grid", "list"]))
+            step["warm"] = draw(st.sampled_from([0, 0, (1 << gen.N_WARM) - 1, 0x0F0F, 0x5A5A]))
+            if name == "grid":
+                stack.append((kind, n))
+        elif name == "data":
+            step["how"] = draw(st.sampled_from(HIST_DATA))
+            step["key"] = draw(st.integers(0, 10 ** 6))
+            step["k"] = draw(st.sampled_from([0.5, 0.25, 2.0]))
+        elif name == "grid_attr":
+            step["b"] = draw(st.integers(0, n - 1))
+            step["attr"] = draw(st.sampled_from(["center", "origin", "spacing", "direction"]))
+            step["k"] = pool()
+        elif name == "to":
+            step["dtype"] = draw(st.sampled_from(["float32", "float64"]))
+            step["how"] = draw(st.sampled_from(["to", "named", "type"]))
+            stack.append((kind, n))
+        elif name == "copy":
+            step["how"] = draw(st.sampled_from(["clone", "copy", "deepcopy", "detach"] + (["ellipsis"] if kind == "batch" else [])))
+            stack.append((kind, n))
+        elif name == "item":
+            step["i"] = draw(st.integers(0, n - 1))
+            step["how"] = draw(st.sampled_from(["getitem", "iter"]))
+            stack.append(("Image", 1))
+        elif name == "sub":
+            idx = draw(st.one_of(st.permutations(list(range(n))).map(list), st.lists(st.integers(0, n - 1), min_size=1, max_size=3)))
+            how = draw(st.sampled_from(["list", "tensor", "slice"]))
+            if how == "slice":
+                a = draw(st.integers(0, n - 1))
+                idx = list(range(a, draw(st.integers(a + 1, n))))
+            step.update(idx=idx, how=how)
+            stack.append(("batch", len(idx)))
+        elif name == "grow":
+            step["how"] = draw(st.sampled_from(["append", "cat"]))
+            stack.append(("batch", 2 * n))
+        elif name == "batch":
+            step["how"] = draw(st.sampled_from(["batch", "batch", "from_images"]))
+            step["n"] = draw(st.integers(1, 2)) if step["how"] == "from_images" else 1
+            stack.append(("batch", step["n"]))
+        elif name == "back":
+            stack.pop()
+        steps.append(step)
+    derive = draw(st.sampled_from([False, False, False, True]))
+    case = {"D": D, "N": N, "C": draw(st.integers(1, 2)), "root": root, "root_g": [pool() for _ in range(N)],
+            "root_i": draw(st.integers(0, N - 1)), "src": srcs, "tgt": tgts, "steps": steps,
+            "tgt_warm": [draw(st.sampled_from([0, 0, (1 << gen.N_WARM) - 1, 0x00FF, 0xA5A5])) for _ in range(N_TGT_POOL)],
+            "tgt_steps": [draw(gen.derivation_steps(D, 1)) if derive and k == 0 else None for k in range(N_TGT_POOL)],
+            "mode": draw(st.sampled_from(["linear", "linear", "nearest"])), "padding": draw(paddings()),
+            "mode_alt": draw(st.sampled_from(["linear", "nearest"])), "padding_alt": draw(paddings())}
+    case.update(draw(content_fields(D)))
+    return case
+
+
+class Live:
+    """One deepali Image / ImageBatch object and, per image, the record {"desc": descriptor} of the Grid object it must be on."""
+
+    def __init__(self, obj, recs):
+        self.obj, self.recs = obj, recs
+
+
+def hist_grids(obj):
+    from deepali.data import ImageBatch
+
+    return tuple(obj.grids()) if isinstance(obj, ImageBatch) else (obj.grid(),)
+
+
+def header_mismatch(g, desc):
+    """Which attribute of the Grid object differs from the float64 descriptor by more than float32 storage explains (or None)."""
+    from vlib.case import model_of_grid
+
+    m, e = model_of_grid(g), ref.GridModel.from_desc(desc)
+    if m.D != e.D or not np.array_equal(m.n, e.n):
+        return f"size {m.n.tolist()} != {e.n.tolist()}"
+    span = float(np.abs(e.c).max() + np.abs(e.s * e.n).sum()) + 1.0
+    if np.abs(m.s - e.s).max() > 16 * EPS32 * float(e.s.max()):
+        return f"spacing {m.s.tolist()} != {e.s.tolist()}"
+    if np.abs(m.R - e.R).max() > 16 * EPS32:
+        return f"direction {m.R.tolist()} != {e.R.tolist()}"
+    if np.abs(m.c - e.c).max() > 16 * EPS32 * span:
+        return f"center {m.c.tolist()} != {e.c.tolist()}"
+    if m.ac != e.ac:
+        return f"align_corners {m.ac} != {e.ac}"
+    return None
+
+
+class History:
+    def __init__(self, case):
+        from vlib.case import derive_grid, model_of_grid, warm_grid
+
+        self.case = case
+        self.reg = {}  # id(Grid object) -> (Grid object, record)
+        self.labels = []
+        self.worst = 0.0
+        self.n_valid = 0
+        self.last_nt = False
+        self.targets, self.tmodels, self.tderived = [], [], []
+        for k, tdesc in enumerate(case["tgt"]):
+            g = make_grid(tdesc)
+            warm_grid(g, int(case["tgt_warm"][k]))
+            steps = case["tgt_steps"][k]
+            if steps:
+                g, applied = derive_grid(g, steps, min_size=2)
+                if int(g.numel()) > 30000:
+                    raise Skip("derived target grid too large")
+                self.labels.append("tgt_derived:" + "+".join(applied))
+                self.tmodels.append(model_of_grid(g))
+            else:
+                self.tmodels.append(ref.GridModel.from_desc(tdesc))
+            self.tderived.append(bool(steps))
+            self.targets.append(g)
+
+    # -- grid objects --------------------------------------------------------------------
+    def pool_grid(self, k: int, warm: int = 0):
+        from vlib.case import warm_grid
+
+        g = make_grid(self.case["src"][k])
+        warm_grid(g, int(warm))
+        rec = {"desc": _copy.deepcopy(self.case["src"][k])}
+        self.reg[id(g)] = (g, rec)
+        return g, rec
+
+    def bind(self, obj, expected, what: str):
+        """Records of the images of `obj`, which the documented effect of the step puts on the headers `expected`."""
+        grids = hist_grids(obj)
+        if len(grids) != len(expected):
+            raise Violation("history_grid_count", f"{what}: object of {len(expected)} image(s) reports {len(grids)} grid(s)")
+        recs = []
+        for b, (g, exp) in enumerate(zip(grids, expected)):
+            bad = header_mismatch(g, exp["desc"])
+            if bad:
+                raise Violation("history_reported_grid", f"{what}: image {b} reports a grid other than the one it must be on: {bad}")
+            ent = self.reg.get(id(g))
+            if ent is None:
+                ent = (g, {"desc": _copy.deepcopy(exp["desc"])})
+                self.reg[id(g)] = ent
+            recs.append(ent[1])
+        return recs
+
+    # -- checked sampling ----------------------------------------------------------------
+    def settings(self, step):
+        case = self.case
+        mode, padding = (case["mode_alt"], case["padding_alt"]) if step.get("alt") else (case["mode"], case["padding"])
+        pad, ref_pad, pad_value = padding_arg(padding)
+        kw = {"mode": mode}
+        if pad is not None:
+            kw["padding"] = pad
+        return mode, padding, kw, ref_pad, pad_value
+
+    def sample(self, live: Live, step, k: int):
+        from deepali.data import Image, ImageBatch
+
+        obj = live.obj
+        is_img = isinstance(obj, Image)
+        N = 1 if is_img else int(obj.shape[0])
+        what = f"step {k} ({'Image' if is_img else 'ImageBatch'}.sample after {'/'.join(s['op'] for s in self.case['steps'][:k]) or 'nothing'})"
+        for b, (g, rec) in enumerate(zip(hist_grids(obj), live.recs)):
+            bad = header_mismatch(g, rec["desc"])
+            if bad:
+                raise Violation("history_reported_grid", f"{what}: image {b} reports a grid other than the one it must be on: {bad}")
+        data = obj.tensor().detach()
+        data0 = data.clone()
+        refdata = data.double().numpy()
+        if is_img:
+            refdata = refdata[None]
+        C = refdata.shape[1]
+        dtype_name = str(obj.dtype).replace("torch.", "")
+        mode, padding, kw, ref_pad, pad_value = self.settings(step)
+        tl = [int(t) for t in step["t"]]
+        if len({tuple(self.tmodels[t].n.tolist()) for t in tl}) > 1:  # a derived target has its own size: one target for all images
+            tl = tl[:1]
+        tms = [self.tmodels[t] for t in tl]
+        if step["op"] == "sample":
+            tgs = [make_grid(self.case["tgt"][t]) if step["fresh"] and not self.tderived[t] else self.targets[t] for t in tl]
+            if is_img:
+                res = obj.sample(tgs[0], **kw)
+                if not isinstance(res, Image):
+                    raise Violation("result_type", f"{what}: Image.sample(Grid) returned {type(res).__name__}")
+                out, out_grids = res.tensor().unsqueeze(0), [res.grid()]
+            else:
+                res = obj.sample(tgs[0] if len(tgs) == 1 and step["form"] == "grid" else list(tgs), **kw)
+                if not isinstance(res, ImageBatch):
+                    raise Violation("result_type", f"{what}: ImageBatch.sample(grid) returned {type(res).__name__}")
+                out, out_grids = res.tensor(), list(res.grids())
+            if len(out_grids) != N:
+                raise Violation("history_result_grid_count", f"{what}: sampling {N} images returned {len(out_grids)} grid(s)")
+            for b, g in enumerate(out_grids):
+                if not grids_equal(g, tgs[min(b, len(tgs) - 1)]):
+                    raise Violation("history_result_grid", f"{what}: image {b} of the result does not carry its target grid")
+            cdt_name, prefix = "float32", "history"
+        else:
+            ac0 = bool(live.recs[0]["desc"]["ac"])  # convention of the batch = convention of its first grid
+            mt = tms[0]
+            cube = [mt.points(mt.index_points(), "grid", cube_axes(ac0), ref.GridModel.from_desc(rec["desc"])) for rec in live.recs]
+            coords = torch.tensor(np.stack(cube, 0), dtype=tdtype(step["cdtype"]))
+            out = obj.sample(coords[0], **kw).unsqueeze(0) if is_img else obj.sample(coords, **kw)
+            if type(out) is not torch.Tensor:
+                raise Violation("coords_result_type", f"{what}: sample(coords) returned {type(out).__name__}, documented: Tensor")
+            cdt_name, prefix = step["cdtype"], "history_coords"
+        if not torch.equal(data, data0):
+            raise Violation("input_modified", f"{what}: sample() modified the image data in place")
+        tshape = tuple(int(v) for v in tms[0].n[::-1])
+        if tuple(out.shape) != (N, C) + tshape:
+            raise Violation("history_result_shape", f"{what}: sampled data has shape {tuple(out.shape)}, expected {(N, C) + tshape}")
+        if out.dtype != obj.dtype:
+            raise Violation("result_dtype", f"{what}: sampled data has dtype {out.dtype} for {obj.dtype} image")
+        out_np = out.detach().double().numpy()
+        nv_total, nt = 0, False
+        for b in range(N):
+            ms, mt = ref.GridModel.from_desc(live.recs[b]["desc"]), tms[min(b, len(tms) - 1)]
+            geo = Geometry(None, None, mode, models=(ms, mt))
+            r, nv, _ = compare(out_np[b], refdata[b], geo, mode, ref_pad, pad_value,
+                               f"{what} image {b} mode={mode} padding={padding} dtype={dtype_name}", prefix=prefix,
+                               exact_values=values_exact(dtype_name, cdt_name, pad_value))
+            self.worst = max(self.worst, r)
+            nv_total += nv
+            cosines = np.clip(np.abs(ms.R.T @ mt.R).max(axis=1), 0, 1)
+            nt = nt or (nv >= 8 and float(np.degrees(np.arccos(cosines)).max()) >= 5.0
+                        and max(float(ms.s.max() / ms.s.min()), float(mt.s.max() / mt.s.min())) >= 1.5)
+        self.n_valid, self.last_nt = nv_total, nt
+
+    # -- steps ---------------------------------------------------------------------------
+    def use(self, live: Live, how: str):
+        from deepali.data import Image
+
+        obj = live.obj
+        is_img = isinstance(obj, Image)
+        size = [int(v) for v in hist_grids(obj)[0].size()]
+        if how == "batch":
+            b = obj.batch() if is_img else obj[...]
+            if is_img and b.grids()[0] is not obj.grid():
+                raise Violation("history_batch_grid_reference", "Image.batch() does not use the Grid object reference of the image (documented)")
+        elif how == "accessors":
+            obj.grid(), obj.center(), obj.origin(), obj.spacing(), obj.direction(), obj.cube(), obj.domain(), obj.align_corners()
+            obj.sdim, obj.nchannels, len(obj)
+        elif how == "sitk":
+            obj.sitk() if is_img else [im.grid().origin() for im in obj]
+        elif how == "resize":
+            obj.resize([n + 1 for n in size])
+        elif how == "center_crop":
+            obj.center_crop([max(n - 1, 1) for n in size])
+        elif how == "normalize":
+            obj.normalize()
+        elif how == "repr":
+            repr(obj), str(obj)
+        elif how == "getitem":
+            obj[0], obj[..., 0], obj[:1]
+        elif how == "arith":
+            (obj * 2 + 1).sum(), obj.tensor().mean(), obj.clamp(0, 1), obj.flatten()
+        elif how == "sample_self":
+            obj.sample(obj.grid() if is_img else list(obj.grids()))
+
+    def edit_data(self, live: Live, step):
+        obj = live.obj
+        how = step["how"]
+        shape = tuple(obj.shape)
+        if how in ("copy_", "tensor_copy_"):
+            lead = shape[:len(shape) - self.case["D"]]
+            new = content(dict(self.case, N=int(np.prod(lead[:-1])) if len(lead) > 1 else 1, C=lead[-1], key=step["key"]), shape[len(lead):])
+            new = torch.tensor(new.reshape(shape), dtype=obj.dtype)
+            (obj if how == "copy_" else obj.tensor()).copy_(new)
+        elif how == "mul_":
+            obj.mul_(float(step["k"]))
+        elif how == "tensor_add_":
+            obj.tensor().add_(10.0 * float(step["k"]))
+        elif how == "setitem":
+            obj[..., 0] = 25.0 * float(step["k"])
+        elif how == "normalize_":
+            obj.normalize_()
+
+    def grid_attr(self, live: Live, step):
+        b = int(step["b"])
+        g, rec = hist_grids(live.obj)[b], live.recs[b]
+        src = self.case["src"][int(step["k"])]
+        desc = rec["desc"]
+        attr = step["attr"]
+        if attr == "center":
+            g.center_([float(v) for v in src["center"]])
+            desc["center"] = list(src["center"])
+        elif attr == "spacing":  # the Grid stores its centre: the other attributes stay
+            g.spacing_([float(v) for v in src["spacing"]])
+            desc["spacing"] = list(src["spacing"])
+        elif attr == "direction":
+            g.direction_(torch.tensor(ref.direction_matrix(src["rot"], src["perm"], src["flip"]), dtype=torch.float64))
+            desc.update(rot=list(src["rot"]), perm=list(src["perm"]), flip=list(src["flip"]), kind=src["kind"])
+        else:  # origin = world position of index 0  =>  centre = origin + A (n - 1) / 2
+            o = ref.GridModel.from_desc(src).o
+            g.origin_([float(v) for v in o])
+            cur = ref.GridModel.from_desc(desc)
+            desc["center"] = [float(v) for v in o + cur.A @ ((cur.n - 1) / 2)]
+
+    def new_grids(self, live: Live, step):
+        from deepali.data import Image
+
+        N = len(live.recs)
+        made = {}
+        for k in step["g"]:
+            if k not in made:
+                made[k] = self.pool_grid(int(k), step["warm"])
+        gl = [made[k] for k in step["g"]]
+        if isinstance(live.obj, Image):
+            return gl[0][0], [gl[0][1]]
+        if len(gl) == 1:
+            return (gl[0][0] if step["form"] == "grid" else [gl[0][0]] * N), [gl[0][1]] * N
+        return [g for g, _ in gl], [r for _, r in gl]
+
+
+def run_history(case):
+    from deepali.data import Image, ImageBatch
+
+    D, N, C = case["D"], case["N"], case["C"]
+    h = History(case)
+    dt = tdtype(case["dtype"])
+    sshape = tuple(case["src"][0]["size"][::-1])
+    data = torch.tensor(content(case, sshape), dtype=dt)
+    made = {}
+    for k in case["root_g"]:
+        if k not in made:
+            made[k] = h.pool_grid(int(k))
+    pairs = [made[k] for k in case["root_g"]]
+    root = case["root"]
+    if root == "Image":
+        live = Live(Image(data[0], pairs[0][0]), [pairs[0][1]])
+    elif root == "ImageBatch_grid":
+        live = Live(ImageBatch(data, pairs[0][0]), [pairs[0][1]] * N)
+    elif root == "ImageBatch_list":
+        live = Live(ImageBatch(data, [g for g, _ in pairs]), [r for _, r in pairs])
+    elif root == "from_images":
+        live = Live(ImageBatch.from_images([Image(data[b], pairs[b][0]) for b in range(N)]), [r for _, r in pairs])
+    else:  # item of a batch with per-image grids
+        i = int(case["root_i"])
+        live = Live(ImageBatch(data, [g for g, _ in pairs])[i], [pairs[i][1]])
+    live.recs = h.bind(live.obj, live.recs, f"root {root}")
+    stack = [live]
+    warmed = changed_after_use = derived = False
+
+    def push(child, expected, what):
+        # a conversion that returns the object itself (e.g. to() of the same dtype) yields no second object with its own state
+        stack.append(stack[-1] if child is stack[-1].obj else Live(child, h.bind(child, expected, what)))
+
+    for k, step in enumerate(case["steps"]):
+        live = stack[-1]
+        obj = live.obj
+        name = step["op"]
+        is_img = isinstance(obj, Image)
+        n = len(live.recs)
+        what = f"step {k} {name}"
+        if name in ("sample", "coords"):
+            h.sample(live, step, k)
+            warmed = True
+        elif name == "use":
+            h.use(live, step["how"])
+            warmed = True
+        elif name == "grid_":
+            arg, exp = h.new_grids(live, step)
+            obj.grid_(arg)
+            live.recs = h.bind(obj, exp, what)
+        elif name == "grid":
+            arg, exp = h.new_grids(live, step)
+            child = obj.grid(arg)
+            push(child, exp, what)
+        elif name == "data":
+            h.edit_data(live, step)
+        elif name == "grid_attr":
+            h.grid_attr(live, step)
+        elif name == "to":
+            tdt = tdtype(step["dtype"])
+            if step["how"] == "to":
+                child = obj.to(tdt)
+            elif step["how"] == "type":
+                child = obj.type(tdt)
+            else:
+                child = obj.float() if step["dtype"] == "float32" else obj.double()
+            if type(child) is not type(obj) or child.dtype != tdt:
+                raise Violation("history_conversion_result", f"{what}: {type(obj).__name__} -> {type(child).__name__} of dtype {child.dtype}")
+            push(child, live.recs, what)
+        elif name == "copy":
+            how = step["how"]
+            child = {"clone": lambda: obj.clone(), "copy": lambda: _copy.copy(obj), "deepcopy": lambda: _copy.deepcopy(obj),
+                     "detach": lambda: obj.detach(), "ellipsis": lambda: obj[...]}[how]()
+            if type(child) is not type(obj):
+                raise Violation("history_conversion_result", f"{what} ({how}): {type(obj).__name__} -> {type(child).__name__}")
+            push(child, live.recs, f"{what} ({how})")
+        elif name == "item":
+            i = int(step["i"])
+            child = obj[i] if step["how"] == "getitem" else list(obj)[i]
+            if not isinstance(child, Image):
+                raise Violation("history_conversion_result", f"{what}: item of an ImageBatch is a {type(child).__name__}")
+            push(child, [live.recs[i]], f"{what} ({step['how']} {i} of {n})")
+        elif name == "sub":
+            idx = [int(i) for i in step["idx"]]
+            if step["how"] == "slice":
+                child = obj[idx[0]:idx[-1] + 1]
+            else:
+                child = obj[idx if step["how"] == "list" else torch.tensor(idx)]
+            if not isinstance(child, ImageBatch):
+                raise Violation("history_conversion_result", f"{what}: sub-batch {idx} is a {type(child).__name__}")
+            push(child, [live.recs[i] for i in idx], f"{what} ({step['how']} {idx} of {n})")
+        elif name == "grow":
+            child = obj.append(obj) if step["how"] == "append" else torch.cat([obj, obj], dim=0)
+            if not isinstance(child, ImageBatch):
+                raise Violation("history_conversion_result", f"{what}: {step['how']} of two batches is a {type(child).__name__}")
+            push(child, live.recs + live.recs, f"{what} ({step['how']})")
+        elif name == "batch":
+            if step["how"] == "batch":
+                child = obj.batch()
+                if child.grids()[0] is not obj.grid():
+                    raise Violation("history_batch_grid_reference", "Image.batch() does not use the Grid object reference of the image (documented)")
+            else:
+                child = ImageBatch.from_images([obj] * int(step["n"]))
+            push(child, live.recs * int(step["n"]), f"{what} ({step['how']})")
+        elif name == "back":
+            if len(stack) > 1:
+                stack.pop()
+        else:
+            raise ValueError(name)
+        if name in HIST_INPLACE and warmed:
+            changed_after_use = True
+        if len(stack) > 1:
+            derived = True
+    ops = sorted({s["op"] + ("_" + s["how"] if s["op"] in ("data", "use") else "") for s in case["steps"]})
+    final = stack[-1]
+    labels = h.labels + [f"D={D}", f"root={root}", f"final={'Image' if isinstance(final.obj, Image) else 'ImageBatch'}", f"N_final={len(final.recs)}",
+                         f"mode={case['mode']}", case["dtype"], f"steps={len(case['steps'])}", f"depth={len(stack)}",
+                         "changed_after_use" if changed_after_use else "no_change_after_use",
+                         "valid>=8" if h.n_valid >= 8 else "valid<8"] + ["op:" + o for o in ops]
+    return {"ratio": h.worst, "nontrivial": bool(h.last_nt and (changed_after_use or derived)), "labels": labels}
+
+
 FACETS = [
     Facet("itk_resample", run_resample, strategy=lambda: resample_cases((0.2, 1.4)),
           rule="anchor-constructed overlapping source/target grid sets (target extent 0.2-1.4 x source extent), Image/ImageBatch, shared or "
@@ -1427,4 +1940,15 @@ FACETS = [
                "interval obtained by rounding (float64 reference +- float32 bound) to the result dtype; non-trivial = rotation >= 5 "
                "deg, anisotropy >= 1.5, >= 8 samples compared with ITK",
           quick=500, thorough=8000, shards=16, quick_shards=3),
+    Facet("object_history", run_history, strategy=history_cases,
+          rule="one live Image / ImageBatch (root: Image, ImageBatch with a shared Grid or per-image Grids, from_images, item of a batch) "
+               "taken through 2-6 steps (planned so that most cases contain use -> in-place change -> sample): checked sample(grid | grids | coords) on a pool of 3 equally sized target Grid objects (reused, "
+               "rebuilt, warmed, one in four derived by deepali), read-only uses (batch(), accessors, sitk, resize, center_crop, normalize, "
+               "repr, indexing, arithmetic, sample on the own grid), grid_() with a warmed same-size grid of other geometry, grid(g), in-place "
+               "data edits (copy_, mul_, add_ / copy_ through tensor(), item assignment, normalize_), in-place setters on the live Grid, "
+               "to/float/double/type, clone/copy/deepcopy/detach/[...], item / iteration, sub-batch by list / tensor / slice, batch() / "
+               "from_images / append / cat, back to the parent object; last step is a sample; every sample is compared with ITK / numpy on "
+               "the float64 descriptors the documented effect of the steps puts the images on, data read from the object at the call; "
+               "non-trivial = last sample rotated >= 5 deg, anisotropy >= 1.5, >= 8 ITK samples, and an in-place change after a prior use or an object derived from the root",
+          quick=500, thorough=10000, shards=16, quick_shards=3),
 ]
